@@ -12,7 +12,7 @@ From Coq Require Import List NArith ZArith Bool.
 From ApiFu Require Import Base.Sexp Intro.Utf8 Intro.IntrospectModel Intro.MarshalValue Intro.LiteralSpec
      Intro.IntrospectSpec Intro.Rebuild Intro.RebuildSpec Intro.Clone
      Intro.GraphProofs Intro.IntrospectProofs Intro.RefsProofs Intro.MarshalProofs Intro.RebuildProofs Intro.CloneProofs
-     Intro.Refuted Intro.ViewBridge.
+     Intro.Refuted Intro.ViewBridge Intro.FloatLex.
 Import ListNotations.
 
 (** ** which types are listed *)
@@ -130,6 +130,16 @@ Theorem C10_go_float_text_is_literal : forall neg ip fp ex rest,
   go_float_ok ip fp ex -> follow_ok rest ->
   lex_number (go_float_text neg ip fp ex ++ rest) = Some (go_float_lit neg ip fp ex, rest).
 Proof. exact lex_number_go. Qed.
+
+(** ... and a number token of C07's lexer specification (coq/Lex/LexSpec.v): [match_int] matches
+    sign and integer part; [match_float] matches the whole text when it has a fraction or an
+    exponent, and nothing otherwise (the text is then an IntValue) *)
+Theorem C10_go_float_text_is_token : forall neg ip fp ex rest,
+  go_float_ok ip fp ex -> follow_ok rest ->
+  let txt := go_float_text neg ip fp ex in
+  LS.match_int (txt ++ rest) = Some (length ((if neg then [45%N] else []) ++ ip)) /\
+  LS.match_float (txt ++ rest) = match fp, ex with [], None => None | _, _ => Some (length txt) end.
+Proof. exact go_float_text_is_token. Qed.
 
 (** KNOWN (key default-string-astral): the restriction of [printable] to U+0000..U+FFFF cannot be
     dropped.  encoding/json leaves an astral character as its four UTF-8 bytes, the lexer's source
@@ -260,6 +270,7 @@ Print Assumptions C10_deep_chain_truncated_refuted.
 Print Assumptions C10_introspect_refs_resolve.
 Print Assumptions C10_default_roundtrip_partial.
 Print Assumptions C10_go_float_text_is_literal.
+Print Assumptions C10_go_float_text_is_token.
 Print Assumptions C10_default_astral_refuted.
 Print Assumptions C10_rebuild_same_verdicts_partial.
 Print Assumptions C10_rebuild_same_lookups.
